@@ -90,6 +90,9 @@ def main(argv):
             s["_tier"] = tier
             s["_seed"] = seed
             s["_index"] = i
+    anchor_files = _anchor_files(prop)
+    for s in specs:
+        s["_anchor_files"] = anchor_files
     shard_timeout = getattr(mod, "SHARD_TIMEOUT", {"quick": 600, "thorough": 3000})[tier]
     for s in specs:
         s["_watchdog"] = shard_timeout - 20
@@ -145,10 +148,22 @@ def main(argv):
         "tier": tier,
     }
     extra_cov = {}
+    anchor = {}
+    for n in notes:
+        for f, d in (n.get("anchor_coverage") or {}).items():
+            a = anchor.setdefault(f, {"statements": set(d["statements"]), "missing": set(d["missing"])})
+            a["missing"] &= set(d["missing"])
+    if anchor:
+        rel = {}
+        for f, a in sorted(anchor.items()):
+            rel[os.path.relpath(f, os.environ.get("VERIF_REPO", "/repo"))] = {
+                "statements": len(a["statements"]), "executed": len(a["statements"]) - len(a["missing"]), "never_executed": sorted(a["missing"])[:40]}
+        extra_cov["anchor_lines"] = rel
+        extra_cov["anchor_lines_note"] = "informational: statement lines of the property's anchored files executed by this run's workload (coverage.py); never part of a verdict"
     if hasattr(mod, "finalize") and not replay_path:
         fin = mod.finalize(tier, merged) or {}
         inconclusive.extend(fin.get("inconclusive", []))
-        extra_cov = fin.get("coverage", {})
+        extra_cov.update(fin.get("coverage", {}))
 
     # ---- classify -------------------------------------------------------
     known = findings_mod.load(os.path.join(ROOT, "known-findings.txt")).get(prop, {})
@@ -233,6 +248,19 @@ def main(argv):
         print("HELD property=%s tier=%s seed=%d evaluations=%d distinct_nontrivial=%d shards=%d wall=%.1fs" % (prop, tier, seed, evaluations, len(distinct), len(specs), wall))
     _cleanup(workdir)
     return 0
+
+
+def _anchor_files(prop):
+    repo_root = os.path.abspath(os.environ.get("VERIF_REPO", "/repo"))
+    try:
+        with open(os.path.join(ROOT, "properties.jsonl")) as f:
+            for line in f:
+                d = json.loads(line)
+                if d["id"] == prop:
+                    return [os.path.join(repo_root, p) for p in d["anchors"].get("files", []) if os.path.exists(os.path.join(repo_root, p))]
+    except Exception:
+        pass
+    return []
 
 
 def _freeze(x):
